@@ -592,4 +592,222 @@ theorem multisigLoop_accepts (chk : PChk) (flags : Flags) (sv : SigVersion) (cod
         exact ih (s :: ss) hemb hs hks
 
 
+
+
+theorem smallnum_check : ∀ k : Fin 21, 1 ≤ k.val →
+    ((scriptNumEncode (k.val : Int) == [UInt8.ofNat k.val]) &&
+     (match scriptNum [UInt8.ofNat k.val] true with | .ok v => v == (k.val : Int) | .error _ => false) &&
+     (match scriptNum [UInt8.ofNat k.val] false with | .ok v => v == (k.val : Int) | .error _ => false) &&
+     (scriptNumGetInt (k.val : Int) == (k.val : Int))) = true := by
+  decide +kernel
+
+theorem smallnum_facts (k : Fin 21) (hk : 1 ≤ k.val) :
+    scriptNumEncode (k.val : Int) = [UInt8.ofNat k.val] ∧
+    (∀ req, scriptNum [UInt8.ofNat k.val] req = .ok (k.val : Int)) ∧ scriptNumGetInt (k.val : Int) = k.val := by
+  have h := smallnum_check k hk
+  simp only [Bool.and_eq_true, beq_iff_eq] at h
+  obtain ⟨⟨⟨h1, h2⟩, h3⟩, h4⟩ := h
+  refine ⟨h1, ?_, h4⟩
+  intro req
+  cases req
+  · cases hs : scriptNum [UInt8.ofNat k.val] false with
+    | ok v => rw [hs] at h3; simp at h3; rw [h3]
+    | error e => rw [hs] at h3; simp at h3
+  · cases hs : scriptNum [UInt8.ofNat k.val] true with
+    | ok v => rw [hs] at h2; simp at h2; rw [h2]
+    | error e => rw [hs] at h2; simp at h2
+
+/-- `OP_1 … OP_16` executed outside conditionals push the one-byte number -/
+theorem stepP_opn (chk : PChk) (env : Env) (stack alt : List Bytes) (nOp cs pcNext : Nat) (k : Nat) (hk1 : 1 ≤ k) (hk : k ≤ 16)
+    (hst : stack.length + alt.length < 1000) (hops : nOp ≤ 201) :
+    stepP chk env ⟨stack, alt, [], nOp, cs⟩ (0x50 + k) [] pcNext = .ok ⟨[UInt8.ofNat k] :: stack, alt, [], nOp, cs⟩ := by
+  unfold stepP stepM
+  have h1 : ¬ ([] : Bytes).length > MAX_SCRIPT_ELEMENT_SIZE := by simp [MAX_SCRIPT_ELEMENT_SIZE]
+  have h2 : ¬ 0x50 + k > OP_16 := by simp [OP_16]; omega
+  have h3 : ¬ nOp > MAX_OPS_PER_SCRIPT := by simp [MAX_OPS_PER_SCRIPT]; omega
+  have h4 : ¬ 0x50 + k ≤ OP_PUSHDATA4 := by simp [OP_PUSHDATA4]; omega
+  have h5 : ((0x50 + k == OP_CHECKSIG || 0x50 + k == OP_CHECKSIGVERIFY) = false) := by
+    simp [OP_CHECKSIG, OP_CHECKSIGVERIFY]; omega
+  have h6 : ((0x50 + k == OP_CHECKMULTISIG || 0x50 + k == OP_CHECKMULTISIGVERIFY) = false) := by
+    simp [OP_CHECKMULTISIG, OP_CHECKMULTISIGVERIFY]; omega
+  have h7 : (0x50 + k == OP_1NEGATE || (decide (OP_1 ≤ 0x50 + k) && decide (0x50 + k ≤ OP_16))) = true := by
+    have a : decide (OP_1 ≤ 0x50 + k) = true := decide_eq_true (by simp only [OP_1]; omega)
+    have b : decide (0x50 + k ≤ OP_16) = true := decide_eq_true (by simp only [OP_16]; omega)
+    simp [a, b]
+  have henc : scriptNumEncode (Int.ofNat (0x50 + k) - Int.ofNat (OP_1 - 1)) = [UInt8.ofNat k] := by
+    have := (smallnum_facts ⟨k, by omega⟩ hk1).1
+    have e : Int.ofNat (0x50 + k) - Int.ofNat (OP_1 - 1) = (k : Int) := by simp [OP_1]; omega
+    rw [e]; exact this
+  simp only [h1, h2, h3, h4, h5, h6, if_false, List.all_nil, not_disabled_of_le (show 0x50 + k ≤ 0x60 by omega),
+    Bool.true_and, Bool.false_eq_true, Bool.true_or, if_true, decide_false, Bool.and_false]
+  simp only [execOp, h7, if_true, henc, Id.run, pure]
+  simp [MAX_STACK_SIZE]; omega
+
+/-- a run of direct pushes moves the items onto the stack, last pushed on top -/
+theorem evalLoopP_pushes (chk : PChk) (env : Env) : ∀ (items : List Bytes) (rest : Bytes) (pc : Nat) (stack alt : List Bytes)
+    (nOp cs : Nat), (∀ d ∈ items, d.length = 0 ∨ (2 ≤ d.length ∧ d.length ≤ 75)) →
+    stack.length + alt.length + items.length < 1000 → nOp ≤ 201 →
+    ∃ pc', evalLoopP chk env (pushesOf items ++ rest) pc ⟨stack, alt, [], nOp, cs⟩ =
+      evalLoopP chk env rest pc' ⟨items.reverse ++ stack, alt, [], nOp, cs⟩ := by
+  intro items
+  induction items with
+  | nil => intro rest pc stack alt nOp cs _ _ _; exact ⟨pc, by simp [pushesOf]⟩
+  | cons d r ih =>
+    intro rest pc stack alt nOp cs hall hst hops
+    have hd := hall d (by simp)
+    have hmin : checkMinimalPush d d.length = true := by
+      rcases hd with h0 | ⟨h2, h75⟩
+      · have : d = [] := List.eq_nil_of_length_eq_zero h0
+        subst this; simp [checkMinimalPush, OP_0]
+      · exact checkMinimalPush_direct d h2 h75
+    have e : pushesOf (d :: r) ++ rest = UInt8.ofNat d.length :: (d ++ (pushesOf r ++ rest)) := by
+      simp [pushesOf, directPush]
+    rw [e, evalLoopP_step _ _ _ _ _ _ _ (getScriptOp_direct d _ (by omega))
+      (stepP_push _ _ _ _ _ _ _ _ _ (by omega) (by omega) hmin (by simp at hst ⊢; omega) hops)]
+    obtain ⟨pc', h⟩ := ih rest (pc + (1 + 0 + d.length)) (d :: stack) alt nOp cs
+      (fun x hx => hall x (List.mem_cons_of_mem _ hx)) (by simp at hst ⊢; omega) hops
+    exact ⟨pc', by rw [h]; simp⟩
+
+
+
+
+theorem scriptCodeFor_codeSep (env : Env) (st st' : State) (sigs : List Bytes) (h : st.codeSep = st'.codeSep) :
+    scriptCodeFor env st sigs = scriptCodeFor env st' sigs := by
+  simp [scriptCodeFor, h]
+
+/-- `OP_CHECKMULTISIG` on `… dummy sig_m … sig_1 m key_n … key_1 n` (top of stack on the left) when the matching loop accepts -/
+theorem stepP_checkmultisig (chk : PChk) (env : Env) (alt : List Bytes) (nOp cs pcNext : Nat)
+    (keysTop sigsTop rest : List Bytes) (hn1 : 1 ≤ keysTop.length) (hn : keysTop.length ≤ 20)
+    (hm1 : 1 ≤ sigsTop.length) (hm : sigsTop.length ≤ keysTop.length)
+    (hops : nOp + 1 + keysTop.length ≤ 201) (hst : rest.length + alt.length + 1 ≤ 1000)
+    (hloop : multisigLoop (m := Id) (liftChk chk) env.flags env.sigversion
+      (scriptCodeFor env ⟨[], [], [], 0, cs⟩ sigsTop) sigsTop keysTop = .ok true) :
+    stepP chk env ⟨[UInt8.ofNat keysTop.length] :: (keysTop ++ ([UInt8.ofNat sigsTop.length] :: (sigsTop ++ ([] :: rest)))),
+        alt, [], nOp, cs⟩ 0xae [] pcNext =
+      .ok ⟨[1] :: rest, alt, [], nOp + 1 + keysTop.length, cs⟩ := by
+  obtain ⟨_, kn, kg⟩ := smallnum_facts ⟨keysTop.length, by omega⟩ hn1
+  obtain ⟨_, sn, sg⟩ := smallnum_facts ⟨sigsTop.length, by omega⟩ hm1
+  simp only at kn kg sn sg
+  unfold stepP stepM
+  have h1 : ¬ ([] : Bytes).length > MAX_SCRIPT_ELEMENT_SIZE := by simp [MAX_SCRIPT_ELEMENT_SIZE]
+  have h3 : ¬ nOp + 1 > MAX_OPS_PER_SCRIPT := by simp [MAX_OPS_PER_SCRIPT]; omega
+  simp only [h1, h3, if_false, List.all_nil, show (0xae : Nat) > OP_16 from by decide, if_true,
+    show isDisabledOpcode 0xae = false from by decide, Bool.false_eq_true,
+    show ¬ (0xae : Nat) ≤ OP_PUSHDATA4 from by decide, decide_false, Bool.and_false, Bool.true_or,
+    show ((0xae : Nat) == OP_CHECKSIG || (0xae : Nat) == OP_CHECKSIGVERIFY) = false from by decide,
+    show ((0xae : Nat) == OP_CHECKMULTISIG || (0xae : Nat) == OP_CHECKMULTISIGVERIFY) = true from by decide]
+  have hcode : scriptCodeFor env ⟨[UInt8.ofNat keysTop.length] :: (keysTop ++ ([UInt8.ofNat sigsTop.length] :: (sigsTop ++ ([] :: rest)))), alt, [], nOp + 1, cs⟩ sigsTop
+      = scriptCodeFor env ⟨[], [], [], 0, cs⟩ sigsTop := scriptCodeFor_codeSep _ _ _ _ rfl
+  simp only [execCheckMultiSig, num, kn, kg, sn, sg, MAX_PUBKEYS_PER_MULTISIG, MAX_OPS_PER_SCRIPT]
+  have c1 : (decide ((keysTop.length : Int) < 0) || decide ((keysTop.length : Int) > Int.ofNat 20)) = false := by
+    simp; omega
+  have c2 : ¬ nOp + 1 + keysTop.length > 201 := by omega
+  have c3 : ¬ (keysTop ++ [UInt8.ofNat sigsTop.length] :: (sigsTop ++ [] :: rest)).length < keysTop.length + 1 := by
+    simp
+  have d1 : List.drop keysTop.length (keysTop ++ [UInt8.ofNat sigsTop.length] :: (sigsTop ++ [] :: rest))
+      = [UInt8.ofNat sigsTop.length] :: (sigsTop ++ [] :: rest) := List.drop_left
+  have t1 : List.take keysTop.length (keysTop ++ [UInt8.ofNat sigsTop.length] :: (sigsTop ++ [] :: rest)) = keysTop :=
+    List.take_left
+  have c4 : (decide ((sigsTop.length : Int) < 0) || decide ((sigsTop.length : Int) > (keysTop.length : Int))) = false := by
+    simp; omega
+  have c5 : ¬ (sigsTop ++ [] :: rest).length < sigsTop.length + 1 := by simp
+  have d2 : List.drop sigsTop.length (sigsTop ++ [] :: rest) = [] :: rest := List.drop_left
+  have t2 : List.take sigsTop.length (sigsTop ++ [] :: rest) = sigsTop := List.take_left
+  simp only [Int.toNat_natCast, c1, c2, c3, d1, t1, sn, sg, c4, c5, d2, t2, hcode, hloop, Bool.false_eq_true, if_false,
+    bind, pure, Id.run]
+  simp [boolBytes, vchTrue, OP_CHECKMULTISIGVERIFY, MAX_STACK_SIZE]
+  omega
+
+
+
+
+/-- `OP_m <key>… OP_n CHECKMULTISIG` for `n ≤ 16` -/
+def multisigScript (m : Nat) (keys : List Bytes) : Bytes :=
+  UInt8.ofNat (0x50 + m) :: (pushesOf keys ++ [UInt8.ofNat (0x50 + keys.length), 0xae])
+
+theorem pushesOf_length_le (items : List Bytes) (k : Nat) (h : ∀ d ∈ items, d.length ≤ k) :
+    (pushesOf items).length ≤ items.length * (k + 1) := by
+  induction items with
+  | nil => simp [pushesOf]
+  | cons d r ih =>
+    have := ih (fun x hx => h x (List.mem_cons_of_mem _ hx))
+    have hd := h d (by simp)
+    have e : pushesOf (d :: r) = directPush d ++ pushesOf r := by simp [pushesOf]
+    rw [e]; simp [directPush, Nat.succ_mul]; omega
+
+/-- a scriptSig of direct pushes leaves the items on the stack, last pushed on top -/
+theorem evalScript_pushes (chk : PChk) (items : List Bytes) (flags : Flags) (tx : TxCtx)
+    (hall : ∀ d ∈ items, d.length = 0 ∨ (2 ≤ d.length ∧ d.length ≤ 75)) (hcount : items.length ≤ 100) :
+    evalScript chk [] (pushesOf items) flags tx .base = .ok items.reverse := by
+  have hl := pushesOf_length_le items 75 (fun d hd => by rcases hall d hd with h | h <;> omega)
+  apply evalScript_of_loop _ _ _ _ _ _ (by omega) ⟨items.reverse, [], [], 0, 0⟩ _ rfl
+  obtain ⟨pc', h⟩ := evalLoopP_pushes chk ⟨pushesOf items, flags, .base, tx⟩ items [] 0 [] [] 0 0 hall (by simp; omega) (by omega)
+  simp only [List.append_nil] at h
+  rw [h, evalLoopP_nil]
+
+/-- the multisig script run on `sig_top … sig_bottom dummy` (top first) leaves a single true when the matching loop accepts -/
+theorem evalScript_multisig (chk : PChk) (m : Nat) (keys sigsTop : List Bytes) (flags : Flags) (tx : TxCtx) (sv : SigVersion)
+    (hm : sigsTop.length = m) (hm1 : 1 ≤ m) (hmn : m ≤ keys.length) (hn : keys.length ≤ 16)
+    (hkeys : ∀ k ∈ keys, 2 ≤ k.length ∧ k.length ≤ 75)
+    (hloop : multisigLoop (m := Id) (liftChk chk) flags sv
+      (scriptCodeFor ⟨multisigScript m keys, flags, sv, tx⟩ ⟨[], [], [], 0, 0⟩ sigsTop) sigsTop keys.reverse = .ok true) :
+    evalScript chk (sigsTop ++ [[]]) (multisigScript m keys) flags tx sv = .ok [[1]] := by
+  have hl := pushesOf_length_le keys 75 (fun d hd => (hkeys d hd).2)
+  apply evalScript_of_loop _ _ _ _ _ _ (by simp [multisigScript]; omega) ⟨[[1]], [], [], 0 + 1 + keys.reverse.length, 0⟩ _ rfl
+  generalize henv : (⟨multisigScript m keys, flags, sv, tx⟩ : Env) = env at *
+  have hf : env.flags = flags := by rw [← henv]
+  have hv : env.sigversion = sv := by rw [← henv]
+  have tm : (UInt8.ofNat (0x50 + m)).toNat = 0x50 + m := toNat_ofNat_lt (by omega)
+  have tn : (UInt8.ofNat (0x50 + keys.length)).toNat = 0x50 + keys.length := toNat_ofNat_lt (by omega)
+  unfold multisigScript
+  rw [evalLoopP_step _ _ _ _ _ _ _ (getScriptOp_op _ _ (by rw [tm]; omega))
+    (by rw [tm]; exact stepP_opn _ _ _ _ _ _ _ m hm1 (by omega) (by simp; omega) (by omega))]
+  obtain ⟨pc', h⟩ := evalLoopP_pushes chk env keys [UInt8.ofNat (0x50 + keys.length), 0xae] (0 + 1) ([UInt8.ofNat m] :: (sigsTop ++ [[]])) [] 0 0
+    (fun d hd => Or.inr (hkeys d hd)) (by simp; omega) (by omega)
+  rw [h]
+  rw [evalLoopP_step _ _ _ _ _ _ _ (getScriptOp_op _ _ (by rw [tn]; omega))
+    (by rw [tn]; exact stepP_opn _ _ _ _ _ _ _ keys.length (by omega) hn (by simp; omega) (by omega))]
+  have hkl : keys.reverse.length = keys.length := List.length_reverse
+  rw [← hm, ← hkl]
+  rw [evalLoopP_step _ _ _ _ _ _ _ (getScriptOp_op 0xae _ (by decide))
+    (stepP_checkmultisig _ _ _ _ _ _ keys.reverse sigsTop [] (by omega) (by omega) (by omega) (by omega) (by omega) (by simp)
+      (by rw [hf, hv]; exact hloop))]
+  rw [evalLoopP_nil]
+
+
+
+
+theorem multisig_not_p2sh (m : Nat) (keys : List Bytes) (hm : m ≤ 16) : isPayToScriptHash (multisigScript m keys) = false := by
+  have tm : (UInt8.ofNat (0x50 + m)).toNat = 0x50 + m := toNat_ofNat_lt (by omega)
+  have hne : UInt8.ofNat (0x50 + m) ≠ 0xa9 := by
+    intro h; have := congrArg UInt8.toNat h; rw [tm] at this; simp at this; omega
+  unfold isPayToScriptHash multisigScript
+  have : ((UInt8.ofNat (0x50 + m) :: (pushesOf keys ++ [UInt8.ofNat (0x50 + keys.length), 0xae]))[0]? == some 0xa9) = false := by
+    simp only [List.getElem?_cons_zero]
+    cases hb : (some (UInt8.ofNat (0x50 + m)) == some (0xa9 : UInt8)) with
+    | false => rfl
+    | true => exact absurd (by simpa using hb) hne
+  rw [this]; simp
+
+theorem multisig_not_witness (m : Nat) (keys : List Bytes) (hk : 1 ≤ keys.length)
+    (hkeys : ∀ k ∈ keys, 2 ≤ k.length ∧ k.length ≤ 75) : isWitnessProgram (multisigScript m keys) = none := by
+  cases keys with
+  | nil => simp at hk
+  | cons k ks =>
+    have hk75 := (hkeys k (by simp)).2
+    have tk : (UInt8.ofNat k.length).toNat = k.length := toNat_ofNat_lt (by omega)
+    have e : multisigScript m (k :: ks) =
+        UInt8.ofNat (0x50 + m) :: UInt8.ofNat k.length :: (k ++ (pushesOf ks ++ [UInt8.ofNat (0x50 + (k :: ks).length), 0xae])) := by
+      simp [multisigScript, pushesOf, directPush]
+    rw [e]
+    unfold isWitnessProgram
+    split
+    · rfl
+    · simp only [tk, List.length_cons, List.length_append]
+      split
+      · rfl
+      · rw [if_neg]
+        simp
+
+
 end Pycoin.Sign
